@@ -5,7 +5,7 @@
 From Coq Require Import List Bool Arith NArith Lia.
 Import ListNotations.
 From Verif Require Import SendReq.Model SendReq.ProofsBound SendReq.ProofsSelect SendReq.ProofsLoop
-  SendReq.ProofsFlags SendReq.ProofsResult SendReq.ProofsLasso.
+  SendReq.ProofsFlags SendReq.ProofsResult SendReq.ProofsLasso SendReq.ProofsBudget.
 
 (* --- boundedness --------------------------------------------------------------------------------------------- *)
 (* Every attempt uses up one of the maxReplicaAttempt (10) attempts of some replica; attempts are only ever given
@@ -14,7 +14,7 @@ From Verif Require Import SendReq.Model SendReq.ProofsBound SendReq.ProofsSelect
 Theorem C10_bounded_general : forall c script rands sleeps,
   n_attempts (fst (run c script rands sleeps)) <=
   max_replica_attempt * length (c_reps c) + n_rearms (fst (run c script rands sleeps)).
-Proof. exact run_bound. Qed.
+Proof. exact (run_bound false). Qed.
 Print Assumptions C10_bounded_general.
 
 (* The hypothesis that excludes finding F10, stated on the run: no NotLeader leader hint ever names a replica that has
@@ -25,14 +25,15 @@ Definition no_rearm (c : cfg) (script : list outcome) (rands : list nat) (sleeps
 Theorem C10_bounded : forall c script rands sleeps,
   no_rearm c script rands sleeps ->
   n_attempts (fst (run c script rands sleeps)) <= max_replica_attempt * length (c_reps c).
-Proof. intros c script rands sleeps H. pose proof (run_bound c script rands sleeps). unfold no_rearm in H. lia. Qed.
+Proof. intros c script rands sleeps H. pose proof (run_bound false c script rands sleeps). unfold no_rearm, run in *. lia. Qed.
 Print Assumptions C10_bounded.
 
 (* The same with a hypothesis on the script alone: a script with h NotLeader-with-hint outcomes allows at most h re-arms. *)
 Theorem C10_bounded_by_hints : forall c script rands sleeps,
   n_attempts (fst (run c script rands sleeps)) <= max_replica_attempt * length (c_reps c) + n_hints script.
 Proof.
-  intros c script rands sleeps. pose proof (run_bound c script rands sleeps). pose proof (run_rearms c script rands sleeps). lia.
+  intros c script rands sleeps. pose proof (run_bound false c script rands sleeps). pose proof (run_rearms false c script rands sleeps).
+  unfold run in *. lia.
 Qed.
 Print Assumptions C10_bounded_by_hints.
 
@@ -66,9 +67,9 @@ Theorem C10_flags : forall c script rands sleeps,
   (c_read c = true -> c_val c = false -> run c script rands sleeps = ([], RError)).
 Proof.
   intros c script rands sleeps. split; [|split].
-  - intros R ST. unfold run. rewrite R. cbn [andb]. apply (loop_write c script R ST); cbn; rewrite R; reflexivity.
-  - apply run_retry.
-  - intros R V. unfold run. rewrite R, V. reflexivity.
+  - intros R ST. unfold run, run_gen. rewrite R. cbn [andb]. apply (loop_write false c script R ST); cbn; rewrite R; reflexivity.
+  - apply (run_retry false).
+  - intros R V. unfold run, run_gen. rewrite R, V. reflexivity.
 Qed.
 Print Assumptions C10_flags.
 
@@ -83,12 +84,49 @@ Theorem C10_no_fabrication : forall c script rands sleeps evs r,
   | RRegionErr j => j + 1 = n_attempts evs /\ j < length script /\ is_region_err (nth j script OSuccess) = true
   | RPseudo | RError => True
   end.
-Proof. intros c script rands sleeps evs r H. apply run_result in H. destruct r; auto. Qed.
+Proof. intros c script rands sleeps evs r H. apply (run_result false) in H. destruct r; auto. Qed.
 Print Assumptions C10_no_fabrication.
+
+(* --- the repair candidate for F10 ----------------------------------------------------------------------------- *)
+(* If replica.onUpdateLeader re-arms an exhausted replica AT MOST ONCE per selector ([run_rearm_once]: the model with that
+   single rule changed), the bound holds for all scripts without any hypothesis: 10 attempts per replica plus one re-arm
+   per replica.  A future fix of F10 can be checked against this model variant. *)
+Theorem C10_bounded_rearm_once : forall c script rands sleeps,
+  n_attempts (fst (run_rearm_once c script rands sleeps)) <= max_replica_attempt * length (c_reps c) + length (c_reps c).
+Proof.
+  intros c script rands sleeps. pose proof (run_bound true c script rands sleeps). pose proof (run_rearms_once c script rands sleeps).
+  unfold run_rearm_once. lia.
+Qed.
+Print Assumptions C10_bounded_rearm_once.
+
+(* --- when is an error returned ------------------------------------------------------------------------------- *)
+(* With C10_no_fabrication this characterises the three kinds of result: a response = the answer to the last attempt; a region
+   error = that of the last attempt or the client-made "no replica / region gone" pseudo error; an ERROR only if the read
+   timestamp failed validation (nothing sent) or a back-off was refused because the budget is spent: the non-excluded sleep
+   (total - tikvServerBusy sleep) has reached maxSleep, or the excluded tikvServerBusy sleep has reached both its 600 000 ms
+   cap and maxSleep.  (Context cancellation / kill are not modelled.) *)
+Theorem C10_error_only_when_spent : forall c script rands sleeps evs,
+  run c script rands sleeps = (evs, RError) ->
+  (c_read c = true /\ c_val c = false) \/
+  ((0 < c_max_sleep c)%N /\
+   ((c_max_sleep c <= tot evs - exc evs)%N \/ ((excl_limit <= exc evs)%N /\ (c_max_sleep c <= exc evs)%N))).
+Proof. intros c script rands sleeps evs H. exact (run_error false c script rands sleeps evs H). Qed.
+Print Assumptions C10_error_only_when_spent.
+
+(* --- how many back-offs a budget admits ------------------------------------------------------------------------ *)
+(* Every back-off of the trace was admitted by the budget test and sleeps at least its minimal step (2 ms for the plain
+   kinds, 1000 ms for tikvServerBusy), hence for maxSleep > 0:  #plain <= (maxSleep+1)/2  and
+   #tikvServerBusy <= (max(600000, maxSleep)+999)/1000. *)
+Theorem C10_backoffs_bounded : forall c script rands sleeps,
+  (0 < c_max_sleep c)%N ->
+  (2 * n_plain (fst (run c script rands sleeps)) <= c_max_sleep c + 1)%N /\
+  (1000 * n_excl (fst (run c script rands sleeps)) <= N.max excl_limit (c_max_sleep c) + 999)%N.
+Proof. intros c script rands sleeps M. exact (run_backoffs false c script rands sleeps M). Qed.
+Print Assumptions C10_backoffs_bounded.
 
 (* --- non-vacuity --------------------------------------------------------------------------------------------- *)
 Definition c_stale_read : cfg := mkCfg RTMixed true true false false false false 100000%N true
-  [fresh_rep Reachable false false false; fresh_rep Reachable false false false; fresh_rep Reachable false false false].
+  [fresh_rep Reachable false false false; fresh_rep Reachable false false false; fresh_rep Reachable false false false] false.
 (* stale read: DataIsNotReady on the first replica, ServerIsBusy on the leader, RPC error on the last replica *)
 Example ex_stale_read :
   run c_stale_read [ODataIsNotReady; OBusy false; ORpcErr Reachable] [0; 0] [55; 1057]%N =
@@ -98,10 +136,23 @@ Proof. vm_compute. reflexivity. Qed.
 Example ex_no_rearm : no_rearm c0 (repeat (ORpcErr Reachable) 40) [] [] /\
   n_attempts (fst (run c0 (repeat (ORpcErr Reachable) 40) [] [])) = 12.
 Proof. vm_compute. auto. Qed.
-Example ex_budget : snd (run (mkCfg RTLeader false true false false false false 120%N true (c_reps c0)) (repeat (ORpcErr Reachable) 40) [] [73; 105]%N) = RError.
+Example ex_budget : snd (run (mkCfg RTLeader false true false false false false 120%N true (c_reps c0) false) (repeat (ORpcErr Reachable) 40) [] [73; 105]%N) = RError.
 Proof. vm_compute. reflexivity. Qed.
-Example ex_write : fst (run (mkCfg RTFollower false false false false false false 100000%N true (c_reps c0)) [OStaleCommand] [1] []) =
+Example ex_write : fst (run (mkCfg RTFollower false false false false false false 100000%N true (c_reps c0) false) [OStaleCommand] [1] []) =
   [EAtt 2 false false false; EAtt 1 false false true].
 Proof. vm_compute. reflexivity. Qed.
 Example ex_lasso : n_attempts (fst (run c0 (lasso 1000) [] [])) = 2022.
 Proof. destruct (lasso_attempts 1000) as [A _]. exact A. Qed.
+
+(* forwarding: leader store unreachable from the client, the request goes through replica 1 (ForwardedHost = leader) *)
+Definition c_fwd : cfg := mkCfg RTLeader false true false false false false 100000%N true
+  [fresh_rep Unreachable false false false; fresh_rep Reachable false false false; fresh_rep Reachable false false false] true.
+Example ex_forward : run c_fwd [] [] [] = ([EProxy 1; EAtt 0 false false false], RSuccess 0).
+Proof. vm_compute. reflexivity. Qed.
+(* the repair candidate stops the F10 lasso: 2 re-arms, then the selector gives up *)
+Example ex_rearm_once : n_attempts (fst (run_rearm_once c0 (lasso 1000) [] [])) = 23 /\ snd (run_rearm_once c0 (lasso 1000) [] []) = RPseudo.
+Proof. vm_compute. auto. Qed.
+(* budget of 120 ms: the third RPC back-off is refused *)
+Example ex_spent : let r := run (mkCfg RTLeader false true false false false false 120%N true (c_reps c0) false) (repeat (ORpcErr Reachable) 40) [] [73; 105]%N in
+  snd r = RError /\ tot (fst r) = 178%N /\ n_plain (fst r) = 2%N.
+Proof. vm_compute. auto. Qed.
